@@ -217,7 +217,48 @@ class CFG:
         wp = self.feasible_reach(target_block, lambda lit, b, i: (b, i) in cut, lambda a: _re.match(r"^[A-Za-z_][\w$.]*$", a) is not None, start=start)
         return wp is None, cut
 
-    def feasible_reach(self, target_block, cut_pred, track, start=None, nonempty=False):
+    def success_path_avoiding(self, cut_pred):
+        """A consistent path from the entry to a return that may deliver 0 / ECONF_SUCCESS, not using any edge for
+        which cut_pred holds - or None when every way to success uses such an edge.  A returned variable is
+        followed through constant assignments and copies (an unknown value may be a success)."""
+        from . import query
+
+        def accept(b, fd):
+            for n in self.blocks[b].elems:
+                if n.k == "ReturnStmt" and not n.j.get("inlined_return"):
+                    c = query.returned_constant(n)
+                    if c is not None:
+                        return c in (0, "ECONF_SUCCESS")
+                    if not n.children:
+                        return True
+                    v = fd.get("=" + render(n.children[0]))
+                    return v is None or v == 0
+            return False
+        return self.feasible_reach(None, cut_pred, lambda a: True, accept=accept)
+
+    def returned_values_from(self, start):
+        """Values returned on the consistent paths that start in block `start` (its own assignments included):
+        integers (enumerators by value), None for a value that is not a known constant."""
+        from . import query
+        vals = set()
+
+        def accept(b, fd):
+            for n in self.blocks[b].elems:
+                if n.k == "ReturnStmt" and not n.j.get("inlined_return"):
+                    if not n.children:
+                        vals.add(None)
+                    else:
+                        e = n.children[0]
+                        cv = e.const_value()
+                        vals.add(cv if cv is not None else fd.get("=" + render(e)))
+            return False
+        self.feasible_reach(None, lambda lit, b, i: False, lambda a: True, start=start, accept=accept)
+        return vals
+
+    def success_cut(self, pred):
+        return self.success_path_avoiding(lambda lit, b, i: pred(lit, b, i)) is None
+
+    def feasible_reach(self, target_block, cut_pred, track, start=None, nonempty=False, accept=None):
         """Is target_block reachable from start without using an edge for which cut_pred holds,
         along a path whose literals on the tracked atoms are not contradictory?  `track` is a
         predicate on atoms.  Facts are killed by stores to a variable the atom mentions.
@@ -239,7 +280,7 @@ class CFG:
         while queue:
             cur = queue.pop(0)
             b, facts = cur
-            if b == target_block and not (nonempty and cur is init):
+            if accept is None and b == target_block and not (nonempty and cur is init):
                 path = []
                 while prev[cur] is not None:
                     path.append(prev[cur][1])
@@ -275,6 +316,18 @@ class CFG:
                             else:
                                 fd.pop(d["name"], None)
                                 fd.pop("=" + d["name"], None)
+                                ini = self.fn.nodes[d["init"]].strip()
+                                if ini.k == "DeclRefExpr" and render(ini) in fd:
+                                    fd[d["name"]] = fd[render(ini)]
+                                    if "=" + render(ini) in fd:
+                                        fd["=" + d["name"]] = fd["=" + render(ini)]
+            if accept is not None and accept(b, fd):
+                path = []
+                while prev[cur] is not None:
+                    path.append(prev[cur][1])
+                    cur = prev[cur][0]
+                path.reverse()
+                return path
             for i, s in enumerate(self.blocks[b].succs):
                 if s is None:
                     continue
@@ -294,6 +347,13 @@ class CFG:
                     if lit.atom in nf and nf[lit.atom] != lit.pol:
                         continue            # contradictory path
                     nf[lit.atom] = lit.pol
+                    if lit.kind == "truth" and not lit.pol and lit.node.k == "DeclRefExpr":
+                        nf["=" + lit.atom] = 0
+                    elif lit.kind == "eq" and lit.pol:
+                        for x, y in ((lit.lhs, lit.rhs), (lit.rhs, lit.lhs)):
+                            if x.strip().k == "DeclRefExpr" and x.const_value() is None and y.const_value() is not None:
+                                nf["=" + render(x)] = y.const_value()
+                                nf[render(x)] = bool(y.const_value())
                 nxt = (s, frozenset(nf.items()))
                 if nxt not in prev:
                     prev[nxt] = (cur, (b, i))
